@@ -65,6 +65,14 @@ def shards(tier, seed):
                                          take=5)[5:] + out[5:]
 
 
+REAL_PREFIXES = ['amq.', 'amq.gen-', 'amq.rabbitmq.reply-to.',
+                 'amq.rabbitmq.reply-to.g2dkABByYWJiaXRAbG9jYWxob3N0AAAA',
+                 'amq.rabbitmq.trace', 'amq.rabbitmq.log', 'amq.rabbitmq.',
+                 'amq.direct', 'amq.topic', 'amq.ctag-', 'celery@', 'mqtt-'
+                 'subscription-', 'stomp-subscription-', 'federation: ',
+                 'shovel:', 'x-', '/', 'reply-to.']
+
+
 def cases(shard, rnd):
     w = shard['what']
     if w == 'lengths':
@@ -123,6 +131,14 @@ def cases(shard, rnd):
             for cp in cps:
                 yield {'t': 'name', 'method': m, 'arg': a, 'v': chr(cp),
                        'phase': 'construct'}
+            # every ASCII character (and a few others) behind the prefixes
+            # that brokers and client libraries give their own names: a rule
+            # with a special case for one family of names shows only there
+            for pre in REAL_PREFIXES:
+                for cp in list(range(0x20, 0x7F)) + [0x0A, 0xE9, 0x2028]:
+                    yield {'t': 'name', 'method': m, 'arg': a,
+                           'v': pre + chr(cp) + rnd.choice(['', 'Zz9', '=']),
+                           'phase': 'construct' if cp % 2 else 'mutate'}
             for cp in cps[::7]:
                 yield {'t': 'name', 'method': m, 'arg': a,
                        'v': 'ab' + chr(cp) + 'cd', 'phase': 'mutate'}
